@@ -335,7 +335,7 @@ func c13Run(t TB, base string, gca, temp, d1, d2 ref.Key, what string, f func(c 
 		srv.Abandon()
 		t.Fatalf("C13: %s: server goroutine panicked: %s: %s\n%s", what, ps[0].Where, ps[0].Value, trimStack(ps[0].Stack))
 	}
-	if a, b := srv.S.VerifTryLocks(); !a || !b {
+	if a, b := serverLocksFree(srv.S); !a || !b {
 		srv.Abandon()
 		t.Fatalf("C13: %s: a server mutex is still held at quiescence (server %v, list %v)", what, a, b)
 	}
@@ -824,11 +824,8 @@ func TestC13Workloads(t *testing.T) {
 				}
 			}
 		}
-		if a, b := srv.S.VerifTryLocks(); !a || !b {
-			time.Sleep(100 * time.Millisecond)
-			if a, b = srv.S.VerifTryLocks(); !a || !b {
-				t.Fatalf("C13: a server mutex is still held at quiescence")
-			}
+		if a, b := serverLocksFree(srv.S); !a || !b {
+			t.Fatalf("C13: a server mutex is still held at quiescence (server %v, list %v)", a, b)
 		}
 		func() {
 			defer func() {
